@@ -187,7 +187,7 @@ pub fn check_one_pass_fix(text: &[char], kept: &[Lint]) -> Option<(String, Value
 pub fn c13(tier: Tier, report: &mut Report) {
     // all spans over positions 0..=P (incl. zero-width), all lists of length <= K
     let p = tier.pick(4, 5);
-    let k = tier.pick(4, 5);
+    let k = tier.pick(4, 6);
     let mut spans = vec![];
     for s in 0..=p {
         for e in s..=p {
@@ -574,7 +574,7 @@ pub fn check_title_case(text: &str, dict: &FstDictionary) -> Option<(String, Val
 pub fn c18(tier: Tier, report: &mut Report) {
     let toks = c18_tokens();
     let k = toks.len() as u64;
-    let maxlen = tier.pick(4, 5);
+    let maxlen = tier.pick(4, 6);
     let mut total = 0u64;
     let mut pw = 1u64;
     let mut offs = vec![];
